@@ -57,14 +57,14 @@ func (h *vHandle) snapshotModels() []vNamed {
 }
 
 type vHist struct {
-	orig  *vHandle
-	snaps []*vHandle
-	f     *vFile
-	rc    *vRefCounts // non-nil: C15 callbacks installed
-	other *Store      // second store sharing the process-wide free lists (C10)
-	otherC *Collection
-	flushed []vNamed  // model at the last successful flush (C12/C02)
-	steps int
+	orig    *vHandle
+	snaps   []*vHandle
+	f       *vFile
+	rc      *vRefCounts // non-nil: C15 callbacks installed
+	other   *Store      // second store sharing the process-wide free lists (C10)
+	otherC  *Collection
+	flushed []vNamed // model at the last successful flush (C12/C02)
+	steps   int
 }
 
 const (
